@@ -6,11 +6,12 @@
  * predicate is evaluated at an arbitrary point of the interleaving;
  *   true  -> the thread goes on (a real spinning thread would see it too);
  *   false -> the thread PARKS: it counts itself as finished, waits until every
- *            thread is finished or parked (the state is frozen then), and
- *            re-evaluates its predicate.  Still false for every parked thread
- *            (paths where some parked predicate is true are discarded: that
- *            thread could have gone on) = a reachable state in which the
- *            thread waits forever = the "deadlock" assertion fails.
+ *            thread is finished or parked (the state is frozen then),
+ *            re-evaluates its predicate and publishes the result.  Still false
+ *            for every parked thread (paths where some parked predicate became
+ *            true are discarded: that thread could have gone on) = a reachable
+ *            state in which the thread waits forever = the "deadlock"
+ *            assertion fails.
  */
 #ifndef GV_SC_H
 #define GV_SC_H
@@ -19,34 +20,31 @@
 #error "define SC_P (number of threads)"
 #endif
 unsigned sc_finished;
-/* where a parked thread waits: site id (0 = not parked) + one saved operand; the unit defines
-   SC_PRED(t): the predicate thread t waits for, as a function of the shared state and sc_site/sc_arg.
-   (CBMC only honours assumptions of the asserting thread, so the thread that reports the deadlock
-   evaluates the predicates of ALL parked threads itself; "park predicate consistent" checks that
-   SC_PRED agrees with the predicate in the code at the moment of parking.) */
-unsigned sc_site[SC_P];
-long sc_arg[SC_P];
+bool sc_parked[SC_P];           /* thread gave up waiting at some await */
+unsigned char sc_still[SC_P];   /* published after the state is frozen: 1 = its predicate is still false, 2 = it became true */
 static inline void sc_end(void) { __CPROVER_atomic_begin(); sc_finished++; __CPROVER_atomic_end(); }
-#define SC_AWAIT_DO(tid, site, arg, pred, action)                              \
+/* All assumptions below are made by the thread that reports the deadlock itself (it reads what the other parked threads
+   published), so the report does not depend on how CBMC combines assumptions of different threads. */
+#define SC_AWAIT_DO(tid, pred, action)                                         \
   do {                                                                         \
     bool ok_;                                                                  \
     __CPROVER_atomic_begin();                                                  \
-    ok_ = (pred); sc_site[tid] = (site); sc_arg[tid] = (long)(arg);            \
-    __CPROVER_assert(((SC_PRED(tid)) != 0) == ok_, "park predicate consistent"); \
-    if (ok_) { action; sc_site[tid] = 0; } else { sc_finished++; }             \
+    ok_ = (pred);                                                              \
+    if (ok_) { action; } else { sc_parked[tid] = 1; sc_finished++; }           \
     __CPROVER_atomic_end();                                                    \
     if (!ok_) {                                                                \
-      __CPROVER_assume(sc_finished == SC_P);                                   \
-      bool any_ = 0;                                                           \
+      __CPROVER_assume(sc_finished == SC_P);    /* everybody finished or parked: the state is frozen */ \
+      __CPROVER_atomic_begin(); ok_ = (pred); sc_still[tid] = ok_ ? 2 : 1; __CPROVER_atomic_end(); \
+      bool all_ = 1;                                                           \
       __CPROVER_atomic_begin();                                                \
-      for (unsigned t_ = 0; t_ < SC_P; ++t_) if (sc_site[t_] != 0 && (SC_PRED(t_))) any_ = 1; \
+      for (unsigned t_ = 0; t_ < SC_P; ++t_) if (sc_parked[t_] && sc_still[t_] != 1) all_ = 0; \
       __CPROVER_atomic_end();                                                  \
-      __CPROVER_assume(!any_);                                                 \
+      __CPROVER_assume(all_);                   /* every parked thread has re-checked: still blocked */ \
       __CPROVER_assert(0, "deadlock: a thread waits forever (every other thread has finished or waits forever too)"); \
       __CPROVER_assume(0);                                                     \
     }                                                                          \
   } while (0)
-#define SC_AWAIT(tid, site, arg, pred) SC_AWAIT_DO(tid, site, arg, pred, (void)0)
+#define SC_AWAIT(tid, pred) SC_AWAIT_DO(tid, pred, (void)0)
 
 typedef struct { unsigned v; } sc_u;
 typedef struct { int v; } sc_i;
@@ -68,5 +66,5 @@ static inline void sc_unlock(sc_mutex* m) { __CPROVER_atomic_begin(); __CPROVER_
 /* condition_variable::wait(lock, pred): pred checked with the mutex held; if false the mutex is released and the thread
    blocks until pred holds AND the mutex is free, taking it at that moment (notifications are not modelled: a wake-up may be
    spurious, so every real execution is covered for safety; a notification that is never sent is NOT detected) */
-#define sc_cond_wait(tid, site, arg, m, pred) do { if (!(pred)) { sc_unlock(m); SC_AWAIT_DO(tid, site, arg, !(m)->locked && (pred), (m)->locked = 1); } } while (0)
+#define sc_cond_wait(tid, m, pred) do { if (!(pred)) { sc_unlock(m); SC_AWAIT_DO(tid, !(m)->locked && (pred), (m)->locked = 1); } } while (0)
 #endif
